@@ -26,6 +26,8 @@ def stmtOk : Expr → Bool
   | .sexp .bind (.atom (.name _)) r => pureE r
   | _ => false
 
+/-- the former fragment of the theorem (no bind inside an expression); now a sub-fragment of `InOracle` below
+(`inOracle_of_stratified`), kept for the record and for the non-vacuity statements -/
 def Stratified (evs : List Event) : Bool := evs.all fun ev => pureE ev.flag && ev.body.all stmtOk
 
 /-- every numeric literal fits the immediate field: `< 2^31`, or `+infinity` (C14: otherwise the
@@ -148,5 +150,169 @@ def Sim (ρ : Rho) (s : Sem.SrcState) (c : Conn) : Prop :=
 /-- every temporary index used by the lowered code exists in libccp (the encoder enforces it) -/
 def TmpsOk (is : List VInstr) : Prop :=
   ∀ i ∈ is, (i.ret.cls = 7 → i.ret.idx < 8) ∧ (i.left.cls = 7 → i.left.idx < 8) ∧ (i.right.cls = 7 → i.right.idx < 8)
+
+/-! ## the fragment of the theorem (and of the oracle `C01.check`): stratified programs, plus hazard-free nested binds
+
+A plain bind `(:= y e)` may also occur *as a value* inside an expression, provided no operator reads, as its left
+operand, a variable that its right operand assigns (operand registers are read when the consuming instruction runs),
+and the nested target is an ordinary variable (not a built-in register, whose write transforms the value). -/
+
+def writesIn : Expr → List Name
+  | .sexp .bind (.atom (.name x)) r => x :: writesIn r
+  | .sexp _ l r => writesIn l ++ writesIn r
+  | _ => []
+
+/-- the variable whose register is the operand's result register, if any -/
+def resultName : Expr → Option Name
+  | .atom (.name x) => some x
+  | .sexp .bind (.atom (.name x)) _ => some x
+  | _ => none
+
+def noHazard (l r : Expr) : Bool :=
+  match resultName l with
+  | some x => !(writesIn r).contains x
+  | none => true
+
+/-- usable as a value: operators over atoms and nested plain binds to ordinary variables, hazard-free -/
+def valueE : Expr → Bool
+  | .atom _ => true
+  | .sexp .bind (.atom (.name x)) r => !isBuiltinName x && valueE r
+  | .sexp o l r =>
+    (match o with | .bind | .if | .notIf | .ewma | .def => false | _ => true) && valueE l && valueE r && noHazard l r
+  | _ => false
+
+def stmtOk2 : Expr → Bool
+  | .none => true
+  | .sexp .bind (.atom (.name _)) (.sexp .if c v) => valueE c && valueE v && noHazard c v
+  | .sexp .bind (.atom (.name _)) (.sexp .notIf c v) => valueE c && valueE v && noHazard c v
+  | .sexp .bind (.atom (.name _)) (.sexp .ewma a v) => valueE a && valueE v && noHazard a v
+  | .sexp .bind (.atom (.name _)) r => valueE r
+  | _ => false
+
+/-- the programs the oracle decides -/
+def InOracle (evs : List Event) : Bool := evs.all fun ev => pureE ev.flag && ev.body.all stmtOk2
+
+theorem writesIn_pure {e : Expr} (h : pureE e = true) : writesIn e = [] := by
+  induction e with
+  | atom p => rfl
+  | cmd c => simp [pureE] at h
+  | none => simp [pureE] at h
+  | sexp o l r ihl ihr =>
+    simp only [pureE, Bool.and_eq_true] at h
+    obtain ⟨⟨ho, hl⟩, hr⟩ := h
+    cases o <;> simp_all [writesIn]
+
+theorem valueE_of_pure {e : Expr} (h : pureE e = true) : valueE e = true := by
+  induction e with
+  | atom p => rfl
+  | cmd c => simp [pureE] at h
+  | none => simp [pureE] at h
+  | sexp o l r ihl ihr =>
+    simp only [pureE, Bool.and_eq_true] at h
+    obtain ⟨⟨ho, hl⟩, hr⟩ := h
+    have hw := writesIn_pure hr
+    have hn : noHazard l r = true := by
+      unfold noHazard; split <;> simp [hw]
+    cases o <;> simp_all [valueE]
+
+theorem noHazard_of_pure {l r : Expr} (hr : pureE r = true) : noHazard l r = true := by
+  unfold noHazard; split <;> simp [writesIn_pure hr]
+
+theorem stmtOk2_of_stmtOk {e : Expr} (h : stmtOk e = true) : stmtOk2 e = true := by
+  unfold stmtOk at h
+  split at h
+  · rfl
+  · simp only [Bool.and_eq_true] at h
+    simp [stmtOk2, valueE_of_pure h.1, valueE_of_pure h.2, noHazard_of_pure h.2]
+  · simp only [Bool.and_eq_true] at h
+    simp [stmtOk2, valueE_of_pure h.1, valueE_of_pure h.2, noHazard_of_pure h.2]
+  · simp only [Bool.and_eq_true] at h
+    simp [stmtOk2, valueE_of_pure h.1, valueE_of_pure h.2, noHazard_of_pure h.2]
+  · rename_i x r h1 h2 h3
+    have hv := valueE_of_pure h
+    unfold stmtOk2
+    split <;> simp_all
+  · cases h
+
+theorem inOracle_of_stratified {evs : List Event} (h : Stratified evs = true) : InOracle evs = true := by
+  unfold Stratified at h
+  unfold InOracle
+  simp only [List.all_eq_true, Bool.and_eq_true] at h ⊢
+  intro ev hev
+  exact ⟨(h ev hev).1, fun e he => stmtOk2_of_stmtOk ((h ev hev).2 e he)⟩
+
+/-! ## inversion lemmas for the fragment and the reference lowering -/
+
+theorem valueE_sexp_cases {o : Op} {l r : Expr} (h : valueE (.sexp o l r) = true) :
+    (∃ x, o = .bind ∧ l = .atom (.name x) ∧ isBuiltinName x = false ∧ valueE r = true) ∨
+    (∃ code, pureOpcode o = some code ∧ valueE l = true ∧ valueE r = true ∧ noHazard l r = true) := by
+  by_cases hb : ∃ x, o = .bind ∧ l = .atom (.name x)
+  · obtain ⟨x, rfl, rfl⟩ := hb
+    simp only [valueE, Bool.and_eq_true, Bool.not_eq_true'] at h
+    exact .inl ⟨x, rfl, rfl, h.1, h.2⟩
+  · right
+    have hne : ∀ x, o = .bind → l = .atom (.name x) → False := fun x h1 h2 => hb ⟨x, h1, h2⟩
+    cases o <;> first
+      | (rw [valueE.eq_3 _ _ hne] at h; simp at h; done)
+      | (simp only [valueE, Bool.and_eq_true, Bool.false_eq_true, false_and, Bool.true_and] at h; done)
+      | (simp only [valueE, Bool.and_eq_true, Bool.true_and] at h
+         exact ⟨_, rfl, h.1.1, h.1.2, h.2⟩)
+
+theorem valueE_not_cond {e : Expr} (hp : valueE e = true) :
+    (∀ c v, e = .sexp .if c v → False) ∧ (∀ c v, e = .sexp .notIf c v → False) ∧
+    (∀ a v, e = .sexp .ewma a v → False) := by
+  refine ⟨?_, ?_, ?_⟩ <;> (intro c v h; subst h; simp [valueE] at hp)
+
+theorem writesIn_op {o : Op} {code : Nat} (ho : pureOpcode o = some code) (l r : Expr) :
+    writesIn (.sexp o l r) = writesIn l ++ writesIn r := by
+  apply writesIn.eq_2
+  intro x hb
+  subst hb
+  cases ho
+
+theorem lowerE_bind_inv {ρ : Rho} {x : Name} {r : Expr} {k : Nat} {le : LE}
+    (h : lowerE ρ (.sexp .bind (.atom (.name x)) r) k = some le) :
+    ∃ rx cr, ρ x = some rx ∧ lowerE ρ r k = some cr ∧
+      le = ⟨cr.instrs ++ [⟨1, rx, rx, cr.reg⟩], rx, cr.k⟩ := by
+  rw [lowerE] at h
+  split at h
+  · rename_i rx cr h1 h2; exact ⟨rx, cr, h1, h2, (Option.some.inj h).symm⟩
+  · cases h
+
+theorem lowerE_op_inv {ρ : Rho} {o : Op} {l r : Expr} {k : Nat} {le : LE}
+    (hne : ∀ x, o = .bind → l = .atom (.name x) → False)
+    (h : lowerE ρ (.sexp o l r) k = some le) :
+    ∃ code cl cr, pureOpcode o = some code ∧ lowerE ρ l k = some cl ∧ lowerE ρ r cl.k = some cr ∧
+      le = ⟨cl.instrs ++ cr.instrs ++ [⟨code, vTmp cr.k, cl.reg, cr.reg⟩], vTmp cr.k, cr.k + 1⟩ := by
+  rw [lowerE.eq_5 _ _ _ _ _ hne] at h
+  split at h
+  · rename_i code cl ho hl
+    split at h
+    · rename_i cr hr
+      exact ⟨code, cl, cr, ho, hl, hr, (Option.some.inj h).symm⟩
+    · cases h
+  · cases h
+
+/-- the two ways a lowered operator node can have come about -/
+theorem lowerE_sexp_cases {ρ : Rho} {o : Op} {l r : Expr} {k : Nat} {le : LE}
+    (h : lowerE ρ (.sexp o l r) k = some le) :
+    (∃ x rx cr, o = .bind ∧ l = .atom (.name x) ∧ ρ x = some rx ∧ lowerE ρ r k = some cr ∧
+      le = ⟨cr.instrs ++ [⟨1, rx, rx, cr.reg⟩], rx, cr.k⟩) ∨
+    (∃ code cl cr, pureOpcode o = some code ∧ lowerE ρ l k = some cl ∧ lowerE ρ r cl.k = some cr ∧
+      le = ⟨cl.instrs ++ cr.instrs ++ [⟨code, vTmp cr.k, cl.reg, cr.reg⟩], vTmp cr.k, cr.k + 1⟩) := by
+  by_cases hb : ∃ x, o = .bind ∧ l = .atom (.name x)
+  · obtain ⟨x, rfl, rfl⟩ := hb
+    obtain ⟨rx, cr, h1, h2, h3⟩ := lowerE_bind_inv h
+    exact .inl ⟨x, rx, cr, rfl, rfl, h1, h2, h3⟩
+  · exact .inr (lowerE_op_inv (fun x h1 h2 => hb ⟨x, h1, h2⟩) h)
+
+/-- with a pure operator the node is an operator node (the form used on pure expressions) -/
+theorem lowerE_sexp_inv {ρ : Rho} {o : Op} {l r : Expr} {k : Nat} {le : LE} {code : Nat}
+    (ho : pureOpcode o = some code) (h : lowerE ρ (.sexp o l r) k = some le) :
+    ∃ cl cr, lowerE ρ l k = some cl ∧ lowerE ρ r cl.k = some cr ∧
+      le = ⟨cl.instrs ++ cr.instrs ++ [⟨code, vTmp cr.k, cl.reg, cr.reg⟩], vTmp cr.k, cr.k + 1⟩ := by
+  obtain ⟨code', cl, cr, ho', hl, hr, e⟩ := lowerE_op_inv (fun x hb _ => by subst hb; cases ho) h
+  rw [ho] at ho'; cases ho'
+  exact ⟨cl, cr, hl, hr, e⟩
 
 end Portus.Lang.Frag
